@@ -104,6 +104,14 @@ type acqAn struct {
 	retInfo map[string]map[string][]string // context -> return position -> may-held there (non-empty only)
 }
 
+// unlockOf: the call is a call of a func value that is the bound Unlock / RUnlock of one mutex cell (accesses.go unlockValue)
+func (a *acqAn) unlockOf(cc *ssa.CallCommon, c *accCtx) (cell, method string, summary bool) {
+	if cc.IsInvoke() || cc.StaticCallee() != nil {
+		return "", "", false
+	}
+	return a.an.unlockValue(cc.Value, c, 0)
+}
+
 // deferKey: key of mayState.def for "this deferred call (not a plain unlock) was certainly registered"
 func deferKey(d *ssa.Defer) string { return fmt.Sprintf("#defer %p", d) }
 
@@ -230,6 +238,11 @@ func (a *acqAn) analyze(f *ssa.Function, held map[string]string, bind map[ssa.Va
 							def[cell] = true
 						}
 					}
+				} else if cell, _, sum := a.unlockOf(x.Common(), c); cell != "" {
+					// defer unlock() for unlock := g.guard(): a deferred Unlock of the cell
+					if !sum {
+						def[cell] = true
+					}
 				} else {
 					def[deferKey(x)] = true // this deferred call certainly runs at the return
 				}
@@ -241,6 +254,9 @@ func (a *acqAn) analyze(f *ssa.Function, held map[string]string, bind map[ssa.Va
 				released, taken := map[string]bool{}, map[string]string{}
 				for _, d := range defers {
 					if _, ok := lockMethod(d.Common()); ok {
+						continue
+					}
+					if cell, _, _ := a.unlockOf(d.Common(), c); cell != "" {
 						continue
 					}
 					r := a.call(f, c, d, d.Common(), copyHeld(h))
@@ -299,6 +315,17 @@ func (a *acqAn) analyze(f *ssa.Function, held map[string]string, bind map[ssa.Va
 						if !a.summary[cell] {
 							delete(h, cell)
 						}
+					}
+					continue
+				}
+				if cell, _, sum := a.unlockOf(cc, c); cell != "" {
+					// unlock() for unlock := g.guard(): the Unlock of the cell
+					a.touched[a.entry] = true
+					if sum {
+						a.summary[cell] = true
+					}
+					if !a.summary[cell] {
+						delete(h, cell)
 					}
 					continue
 				}
